@@ -614,7 +614,7 @@ impl Prop for C01 {
     fn plan(&self, tier: Tier) -> Plan {
         let mut p = Plan::new(match tier {
             Tier::Quick => 3000,
-            Tier::Thorough => 8000,
+            Tier::Thorough => 40_000,
         });
         p.workers = 5;
         p.repeats = 3;
